@@ -537,7 +537,41 @@ def r19_12(ctx: Ctx) -> None:
     ctx.floor("R19.12", n, 5, "run_* methods of the CLI")
 
 
+def r19_13(ctx: Ctx) -> None:
+    """`c` and `a` archive what they were given: every session they open (`with py7zr.SevenZipFile(...) as z`) walks ALL the file arguments, hands a
+    directory to writeall() and anything else to write(); `c` passes the password it asked for; the end of the command is `return 0`."""
+    for name in ("run_create", "run_append"):
+        f = _cli(ctx, name)
+        sessions = [w for w in walk(f.node) if isinstance(w, ast.With) and any(isinstance(i.context_expr, ast.Call) and attr_tail(i.context_expr) == "SevenZipFile" and i.optional_vars is not None for i in w.items)]
+        ctx.floor("R19.13", len(sessions), 1, f"archive sessions in {name}")
+        for w in sessions:
+            it = next(i for i in w.items if isinstance(i.context_expr, ast.Call) and attr_tail(i.context_expr) == "SevenZipFile")
+            z = norm(it.optional_vars)
+            loops = [l for l in ast.walk(w) if isinstance(l, ast.For) and norm(l.iter) in ("filenames", "args.filenames")]
+            ok = False
+            for l in loops:
+                for cond in [c for c in ast.walk(l) if isinstance(c, ast.If) and isinstance(c.test, ast.Call) and attr_tail(c.test) == "is_dir"]:
+                    src = norm(cond.test.func.value)
+                    wa = any(isinstance(x, ast.Call) and attr_tail(x) == "writeall" and norm(x.func.value) == z and x.args and norm(x.args[0]) == src for st in cond.body for x in ast.walk(st))
+                    wr = any(isinstance(x, ast.Call) and attr_tail(x) == "write" and norm(x.func.value) == z and x.args and norm(x.args[0]) == src for st in cond.orelse for x in ast.walk(st))
+                    derived = any(isinstance(n, ast.Assign) and norm(n.targets[0]) == src and any(isinstance(y, ast.Name) and y.id == norm(l.target) for y in ast.walk(n.value)) for n in ast.walk(l))
+                    ok = ok or (wa and wr and derived)
+            ctx.check(ok, "R19.13", f, w, f"{name}: every file argument is archived (writeall for a directory, write otherwise)",
+                      f"a session of Cli.{name} does not hand every file argument to `{z}.writeall()` (directories) / `{z}.write()` (the rest): `c`/`a` exit 0 with an archive that lacks "
+                      "what it was asked to hold", construct=f"{name} sources")
+            if name == "run_create":
+                pw = next((k.value for k in it.context_expr.keywords if k.arg == "password"), None)
+                ctx.check(pw is not None and norm(pw) == "password", "R19.13", f, it.context_expr, "`c` passes the password it asked for",
+                          "Cli.run_create opens the archive without `password=password`: `c -P` asks for a password and writes an unencrypted archive", construct="run_create password")
+        cfg = cfg_of(f.node)
+        last = f.node.body[-1]
+        tails = [r for r in ast.walk(last) if isinstance(r, ast.Return)] if not isinstance(last, ast.Return) else [last]
+        ok = bool(tails) and all(isinstance(r.value, ast.Constant) and r.value.value == 0 and not isinstance(r.value.value, bool) for r in tails)
+        ctx.check(ok, "R19.13", f, last, f"{name} ends with status 0", f"Cli.{name} does not end in `return 0` after the session(s): a successful `{name[4]}` reports failure", construct=f"{name} final status")
+
+
 def run(ctx: Ctx) -> None:
+    r19_13(ctx)
     r19_12(ctx)
     r19_11(ctx)
     r19_10(ctx)
